@@ -80,6 +80,17 @@ func jarCorpus(je *jarEngine) {
 		opCycle("[2001:db8::b]", "/", jcDel("root", "max-age-0")), opGet("[2001:db8::a]", "/"))
 	run("ipv6-port-insensitive", opSet("SetByHost", "[2001:db8::a]:8080", jc("root")), opGet("[2001:db8::a]", "/"))
 	run("ipv6-host-with-port", opSet("SetByHost", "[2001:db8::a]:8080", jc("root")), opGet("[2001:db8::a]:8080", "/"), opGet("[2001:db8::b]:8080", "/"))
+	// "Path=/" and no Path attribute name the same cookie (requests whose default-path is "/"):
+	// set one way, deleted / refreshed the other way, all four combinations
+	withPath := func(c jarCookie, p string) jarCookie { c.Path = p; return c }
+	for _, f := range []struct{ name, first, second string }{{"slash-then-none", "/", ""}, {"none-then-slash", "", "/"}, {"none-then-none", "", ""}, {"slash-then-slash", "/", "/"}} {
+		run("root-path-forms-delete-"+f.name, opCycle("h1.test", "/", withPath(jc("root"), f.first)),
+			opCycle("h1.test", "/a", withPath(jcDel("root", "max-age-0"), f.second)), opGet("h1.test", "/"), opGet("h1.test", "/a/b"))
+		run("root-path-forms-refresh-"+f.name, opCycle("h1.test", "/b", withPath(jc("root"), f.first)),
+			opCycle("h1.test", "/", withPath(jc("root"), f.second)), opGet("h1.test", "/"), opCycle("h1.test", "/a/b"))
+		run("root-path-forms-set-then-response-"+f.name, opSet("SetByHost", "h1.test", withPath(jc("np1"), f.first)),
+			opCycle("h1.test", "/", withPath(jcDel("np1", "past-expires"), f.second)), opGet("h1.test", "/a"))
+	}
 	// sanity: these hold on a correct jar and on this one
 	run("sanity-expires", opSet("SetByHost", "h1.test", jcExp("root", 2)), opGet("h1.test", "/"), opAdv(3), opGet("h1.test", "/"))
 	run("sanity-hosts", opSet("SetByHost", "h1.test", jc("root")), opSet("SetKeyValue", "h2.test", jc("np1")),
